@@ -386,6 +386,11 @@ def run(repo, rep):
     common.state_rule(repo, rep, [('geodepy.convert', 'psfandgridconv'), ('geodepy.convert', 'geo2grid'), ('geodepy.convert', 'grid2geo')])
     rep.trust('sv/alg.py exact normal forms; generator independence modulo the rewrite rules applied')
     common.tm_division_rules(repo, rep)
+    # psfandgridconv is an observation point of its own: its latitude / longitude go through angular_typecheck (every angle class)
+    fh_ = repo.func('geodepy.convert', 'psfandgridconv')
+    for pn_ in (fh_.params[2].name, fh_.params[3].name):
+        common.angle_param_rule(rep, fh_, pn_)
+    common.typecheck_rules(repo, rep)
     rep.trust('reference formulas: Karney-Krueger equations 26-28 (Deakin), sign convention grid bearing = azimuth + convergence')
     tr = ThreadRule(repo, _Only(rep, 'psfandgridconv'))
     for fname in ('geo2grid', 'grid2geo'):
